@@ -125,7 +125,9 @@ func genUnit(t *rapid.T) Unit {
 
 func gen(t *rapid.T) Case {
 	var c Case
-	c.Wrap = rapid.SampledFrom([]string{"try", "trypipe", "try", "trypipe", "fn-try", "fn-trypipe", "top-try", "top-trypipe"}).Draw(t, "wrap")
+	// nest-X: an X { } block inside a function whose `runmode` names the other
+	// mode: the block keeps its own rules
+	c.Wrap = rapid.SampledFrom([]string{"try", "trypipe", "try", "trypipe", "fn-try", "fn-trypipe", "top-try", "top-trypipe", "nest-try", "nest-trypipe"}).Draw(t, "wrap")
 	if !strings.HasPrefix(c.Wrap, "top-") {
 		c.Sentinel = rapid.Bool().Draw(t, "sentinel")
 	}
@@ -194,6 +196,12 @@ func (c Case) body() string {
 	switch {
 	case strings.HasPrefix(c.Wrap, "fn-"):
 		b.WriteString("function c05wrap {\nrunmode " + mode + " function\n" + c.chain() + "\n}\nc05wrap\n")
+	case strings.HasPrefix(c.Wrap, "nest-"):
+		other := "trypipe"
+		if c.pipeMode() {
+			other = "try"
+		}
+		b.WriteString("function c05wrap {\nrunmode " + other + " function\n" + mode + " {\n" + c.chain() + "\n}\n}\nc05wrap\n")
 	case strings.HasPrefix(c.Wrap, "top-"):
 		b.WriteString("runmode " + mode + " function\n" + c.chain() + "\n")
 	default:
